@@ -9,6 +9,7 @@ try:
 except FileNotFoundError:
     pass
 engines = json.load(open(f'{V}/tools/engines.json'))
+allow = set(open(f'{V}/tools/claimed.txt').read().split())
 m = {
  "version": 1,
  "setup_cmd": "/verif/setup.sh",
@@ -24,7 +25,7 @@ for p in props:
     mp = f'{V}/checks/{p}/meta.json'
     if os.path.exists(mp) and os.path.exists(f'{V}/checks/{p}/main/main.go'):
         c = json.load(open(mp))
-        if c.get('claimed', True):
+        if p in allow:
             m['checks'].append({
                 "property_id": p, "quick_cmd": f"/verif/run {p} quick", "thorough_cmd": f"/verif/run {p} thorough",
                 "evidence_file": f"/verif/evidence/{p}.json", "replay_cmd_template": f"/verif/run {p} quick --replay {{path}}",
